@@ -759,11 +759,23 @@ impl BufferedDatabaseWriter {
         }
         //at the end of the batch, update the daily log with all room dates that needs to be recomputed
         #[cfg(feature = "verif")]
-        verif_faults::point(verif_faults::P_MARKS, 0)?;
-        daily_log.write(conn)?;
+        if let Err(e) = verif_faults::point(verif_faults::P_MARKS, 0) {
+            conn.execute("ROLLBACK", [])?;
+            return Err(e);
+        }
+        if let Err(e) = daily_log.write(conn) {
+            conn.execute("ROLLBACK", [])?;
+            return Err(e);
+        }
         #[cfg(feature = "verif")]
-        verif_faults::point(verif_faults::P_COMMIT, 0)?;
-        conn.execute("COMMIT", [])?;
+        if let Err(e) = verif_faults::point(verif_faults::P_COMMIT, 0) {
+            conn.execute("ROLLBACK", [])?;
+            return Err(e);
+        }
+        if let Err(e) = conn.execute("COMMIT", []) {
+            conn.execute("ROLLBACK", [])?;
+            return Err(e);
+        }
         #[cfg(feature = "verif")]
         verif_faults::point(verif_faults::P_COMMITTED, 0)?;
 
